@@ -30,7 +30,7 @@ prop("C10", False, "exploration", "exhaustive enumeration of frame partitions of
 prop("C11", False, "model_checking", "exhaustive history search over begin/attach/detach/send histories with identifier monitors", "", TRUST_B, "§3 C11", "sched", NOTBUILT)
 prop("C12", False, "model_checking", "exhaustive history search over local ops x peer behaviours with a connection trace automaton", "", TRUST_B, "§3 C12", "sched", NOTBUILT)
 prop("C13", False, "model_checking", "exhaustive history search over session/link lifecycle events with per-channel/handle trace automata", "", TRUST_B, "§3 C13", "sched", NOTBUILT)
-prop("C14", False, "fault_enumeration", "enumeration of every transport cut point x fault mode over a reference conversation", "", TRUST_B, "§3 C14", "sched", NOTBUILT)
+prop("C14", False, "fault_enumeration", "fault enumeration: every transport cut point x fault mode, pending-operation x peer-fault product, peer faults behind every write of a reference conversation, each also under deviation-bounded schedule exploration", "", TRUST_B, "§3 C14", "sched", NOTBUILT)
 prop("C15", False, "exploration", "exhaustive enumeration of malformed frames and a catalogue of violating performatives x endpoint states", "", TRUST_B, "§3 C15", "sched", NOTBUILT)
 prop("C16", False, "fault_enumeration", "enumeration of every cancel point (drop after k-th poll) of send/recv futures", "", TRUST_B, "§3 C16", "sched", NOTBUILT)
 prop("C17", False, "model_checking", "exhaustive enumeration of channel-max pairs x begin/end histories and idle-timeout traffic patterns in virtual time", "", TRUST_B, "§3 C17", "sched", NOTBUILT)
